@@ -49,6 +49,10 @@ def tup(x):
     return tuple(float(v) + 0.0 for v in np.asarray(x, dtype=float).ravel())
 
 
+class InjectedFault(Exception):
+    """raised by the recorder's cost function when the script armed a fault: the user's objective fails once"""
+
+
 class Recorder(object):
     def __init__(self, kind, dim=2, npop=4, seed=0, cost=None, x0=None, with_callback=True, scripted_term=False):
         import mystic.solvers as ms
@@ -92,6 +96,7 @@ class Recorder(object):
         self.term_obj = None       # None = solver default
         self.in_call = False
         self.kwpend = None         # evaluation monitor handed over by keyword, not yet seen installed
+        self.fault_at = None       # the k-th cost call from now raises InjectedFault (after it was counted as a call)
         s.SetObjective(self.cost)
         # evaluation monitor from the start (the property's "default in-process map" clause)
         s.SetEvaluationMonitor(Monitor())
@@ -104,6 +109,12 @@ class Recorder(object):
     # ---- callables handed to mystic ------------------------------------------------------
     def cost(self, x):
         self.real += 1
+        if self.fault_at is not None:
+            self.fault_at -= 1
+            if self.fault_at <= 0:
+                self.fault_at = None
+                self.calls.append((tup(x), None))      # the call was made; it has no value
+                raise InjectedFault("the objective failed at call %d" % self.real)
         v = self.raw(x)
         self.calls.append((tup(x), v))
         return v
@@ -209,6 +220,9 @@ class Recorder(object):
         self.events.append(dict({"ev": "Call", "mode": "step"}, **({"kw": recs} if recs else {})))
         try:
             msg = self.solver.Step(**kwargs)
+        except InjectedFault:
+            self.emit("Abort")          # the caller catches the failure of its objective; the trace ends here
+            raise
         except Exception as ex:
             self.emit("Raise", what=repr(ex)[:200])
             raise
@@ -291,6 +305,10 @@ class Recorder(object):
     def exit(self):
         self.solver._EARLYEXIT = True
         self.emit("Exit")
+
+    def fault_in(self, k):
+        """arm: the k-th call of the objective from now fails (raises); the script's next Step is aborted by it"""
+        self.fault_at = int(k)
 
     def exit_in(self, k):
         """arm: the k-th callback from now requests an exit (what the signal handler does)"""
